@@ -198,23 +198,48 @@ func (s *Server) listAndFilterMultipartUploads(ctx context.Context, r *http.Requ
 			return nil, nil, nil, err
 		}
 
+		// Uploads and common prefixes form one listing in key order; walk them
+		// in that order, so that the entry scanned last is the greatest one and
+		// max-uploads limits the number of uploads and common prefixes together.
 		lastKeyMarker := keyMarker
 		lastUploadIDMarker := uploadIDMarker
-		for uploadIndex, upload := range result.Uploads {
-			uploadKey := upload.Key.String()
-			uploadID := upload.UploadId.String()
-			lastKeyMarker = &uploadKey
-			lastUploadIDMarker = &uploadID
-			allowed, err := s.authorizeListMultipartUpload(ctx, baseRequest, uploadKey, uploadID)
-			if err != nil {
-				return nil, nil, nil, err
+		uploadIndex, prefixIndex := 0, 0
+		for uploadIndex < len(result.Uploads) || prefixIndex < len(result.CommonPrefixes) {
+			var allowed bool
+			isUpload := prefixIndex >= len(result.CommonPrefixes) || (uploadIndex < len(result.Uploads) && result.Uploads[uploadIndex].Key.String() < result.CommonPrefixes[prefixIndex])
+			if isUpload {
+				upload := result.Uploads[uploadIndex]
+				uploadIndex++
+				uploadKey := upload.Key.String()
+				uploadID := upload.UploadId.String()
+				lastKeyMarker = &uploadKey
+				lastUploadIDMarker = &uploadID
+				allowed, err = s.authorizeListMultipartUpload(ctx, baseRequest, uploadKey, uploadID)
+				if err != nil {
+					return nil, nil, nil, err
+				}
+				if allowed {
+					collectedUploads = append(collectedUploads, upload)
+				}
+			} else {
+				commonPrefix := result.CommonPrefixes[prefixIndex]
+				prefixIndex++
+				lastKeyMarker = &commonPrefix
+				lastUploadIDMarker = ptrutils.ToPtr("")
+				allowed, err = s.authorizeListMultipartUpload(ctx, baseRequest, commonPrefix, "")
+				if err != nil {
+					return nil, nil, nil, err
+				}
+				if _, exists := seenPrefixes[commonPrefix]; exists {
+					allowed = false
+				}
+				if allowed {
+					seenPrefixes[commonPrefix] = struct{}{}
+					collectedPrefixes = append(collectedPrefixes, commonPrefix)
+				}
 			}
-			if !allowed {
-				continue
-			}
-			collectedUploads = append(collectedUploads, upload)
-			if int32(len(collectedUploads)) >= maxUploads {
-				hasMore := uploadIndex < len(result.Uploads)-1 || len(result.CommonPrefixes) > 0 || result.IsTruncated
+			if allowed && int32(len(collectedUploads)+len(collectedPrefixes)) >= maxUploads {
+				hasMore := uploadIndex < len(result.Uploads) || prefixIndex < len(result.CommonPrefixes) || result.IsTruncated
 				if hasMore {
 					nextKeyMarker = lastKeyMarker
 					nextUploadIDMarker = lastUploadIDMarker
@@ -222,22 +247,6 @@ func (s *Server) listAndFilterMultipartUploads(ctx context.Context, r *http.Requ
 				}
 				return &storage.ListMultipartUploadsResult{BucketName: result.BucketName, KeyMarker: result.KeyMarker, UploadIdMarker: result.UploadIdMarker, Prefix: result.Prefix, Delimiter: result.Delimiter, MaxUploads: maxUploads, CommonPrefixes: collectedPrefixes, Uploads: collectedUploads, IsTruncated: false}, nil, nil, nil
 			}
-		}
-		for _, commonPrefix := range result.CommonPrefixes {
-			lastKeyMarker = &commonPrefix
-			lastUploadIDMarker = ptrutils.ToPtr("")
-			allowed, err := s.authorizeListMultipartUpload(ctx, baseRequest, commonPrefix, "")
-			if err != nil {
-				return nil, nil, nil, err
-			}
-			if !allowed {
-				continue
-			}
-			if _, exists := seenPrefixes[commonPrefix]; exists {
-				continue
-			}
-			seenPrefixes[commonPrefix] = struct{}{}
-			collectedPrefixes = append(collectedPrefixes, commonPrefix)
 		}
 
 		if !result.IsTruncated {
